@@ -384,6 +384,13 @@ def main(ctx):
     for t in M.META:
         ctx.check({'kind': 'msg', 'msg': M.default_meta(t)})
         ctx.check({'kind': 'track', 'msgs': [M.default_meta(t)]})
+    long_stream = [['valid', f'note_on channel={i % 16} note={i % 128} velocity=5 time={i}',
+                    {'type': 'note_on', 'channel': i % 16, 'note': i % 128, 'velocity': 5, 'time': i}] if i % 50 else
+                   ['comment', '# block', None] for i in range(11999)]
+    long_stream.append(['invalid', 'note_on note=999', None])
+    long_stream.append(['valid', 'clock time=1e-05', {'type': 'clock', 'time': 1e-05}])
+    for how in ('iter', 'list', 'file'):
+        ctx.check({'kind': 'stream', 'lines': long_stream, 'how': how}, sample=False)
     ctx.check({'kind': 'track', 'msgs': []})
     ctx.check({'kind': 'file', 'file': {'type': 1, 'tpb': 480, 'tracks': []}})
     ctx.check({'kind': 'file', 'file': {'type': 1, 'tpb': 480, 'tracks': [[]]}})
